@@ -28,7 +28,9 @@ ASSUMPTIONS = [
     'a fresh parser instance is created for every string (so that a case replays on its own); reusability is judged '
     'only by the histories sub-check',
     'RecursionError is an escape only when bracket depth + longest prefix-operator run of the input is <= 30; '
-    'MemoryError, and evaluations stopped by the 20 s alarm guard, are resource outcomes (counted, not violations)',
+    'MemoryError, and evaluations stopped by the 20 s alarm guard, are resource outcomes (counted, not violations); '
+    'super-polynomial cost is judged only by sub-check blowup, on CPU time of a child process (regex backtracking runs in C, '
+    'an instruction counter cannot see it): verdict only when n=40 costs > 1000 x n=10 and > 5 s CPU',
     'integer literals have at most 3 digits and collation arguments are never UCA URIs (an unavailable locale can '
     'leave elementpath.collations._locale_collate_lock held: property C19)',
     'functions that reach the file system or the network (doc, collection, unparsed-text*, json-doc, transform, '
@@ -79,8 +81,39 @@ def parser_class(ver):
 NS = {'p': 'urn:p', 'q': 'urn:q'}
 
 
-def new_parser(ver):
-    return parser_class(ver)(namespaces=dict(NS))
+XSD_NS = 'http://www.w3.org/2001/XMLSchema'
+PARSER_CONFIGS = ('default', 'xsd-default-ns', 'xsd-empty-prefix', 'fn-ns', 'compat', 'nonstrict-1.1', 'vartypes', 'elem-ns')
+
+
+def parser_kwargs(ver, cfg):
+    """constructor options of a parser configuration (every configuration must still raise coded errors only)"""
+    ns = dict(NS)
+    if ver == '1.0':
+        if cfg == 'xsd-empty-prefix':
+            ns[''] = XSD_NS
+        return {'namespaces': ns, 'strict': cfg not in ('nonstrict-1.1',)}
+    kw = {'namespaces': ns}
+    if cfg == 'xsd-default-ns':
+        kw['default_namespace'] = XSD_NS
+    elif cfg == 'xsd-empty-prefix':
+        ns[''] = XSD_NS
+    elif cfg == 'fn-ns':
+        kw['function_namespace'] = 'urn:my-functions'
+    elif cfg == 'compat':
+        kw['compatibility_mode'] = True
+    elif cfg == 'nonstrict-1.1':
+        kw.update(strict=False, xsd_version='1.1', base_uri='http://example.com/x/')
+    elif cfg == 'vartypes':
+        kw['variable_types'] = {'v': 'xs:integer', 'w': 'xs:string', 's': 'xs:integer*'}
+    elif cfg == 'elem-ns':
+        kw['default_namespace'] = 'urn:p'
+    return kw
+
+
+def new_parser(ver, cfg='default'):
+    if cfg == 'default':
+        return parser_class(ver)(namespaces=dict(NS))
+    return parser_class(ver)(**parser_kwargs(ver, cfg))
 
 
 def _etree_doc(lib):
@@ -193,6 +226,25 @@ def _lock_state():
 # --------------------------------------------------------------------------
 # judging one string
 # --------------------------------------------------------------------------
+_GENERIC_FRAMES = {'__getitem__', '__setitem__', '__delitem__', '__len__', '__iter__', '__contains__', '__call__wrapper'}
+
+
+def call_site_bucket(exc):
+    """type + innermost elementpath frame, skipping container dunders of tdop.Token (self[1][1] raises inside
+    Token.__getitem__: the call site is the frame that indexed)"""
+    import traceback
+    tb = traceback.extract_tb(exc.__traceback__)
+    site = 'outside'
+    for fr in reversed(tb):
+        fn = fr.filename.replace('\\', '/')
+        if '/elementpath/' in fn:
+            if fr.name in _GENERIC_FRAMES and fn.endswith('/tdop.py'):
+                continue
+            site = fn.split('/elementpath/', 1)[1] + ':' + fr.name
+            break
+    return f'C03/escape/{type(exc).__name__}@{site}'
+
+
 def _esc(exc, s, phase):
     """Disc (or None for resource outcomes) for a non-ElementPathError exception"""
     if isinstance(exc, MemoryError):
@@ -200,17 +252,19 @@ def _esc(exc, s, phase):
     if isinstance(exc, RecursionError):
         if X.nesting_depth(s) > 30:
             return None, 'resource:deep-recursion'
-    return Disc(escape_bucket('C03', exc), 'ElementPathError or a value', repr(exc)[:300], f'{phase}: {s!r}'), 'escape'
+    return Disc(call_site_bucket(exc), 'ElementPathError or a value', repr(exc)[:300], f'{phase}: {s!r}'), 'escape'
 
 
-def judge_string(ver, s, ctxkind, api, rec=None, source='?', extra_vars=None):
+def judge_string(ver, s, ctxkind, api, rec=None, source='?', extra_vars=None, cfg='default'):
     from elementpath.exceptions import ElementPathError
     import elementpath
     discs = []
     classes = ['expr:case', f'expr:src-{source}', f'expr:ver-{ver}']
     outcome = None
     tok = None
-    p = new_parser(ver)
+    p = new_parser(ver, cfg)
+    if cfg != 'default':
+        classes.append(f'expr:cfg-{cfg}')
     try:
         st_, tok = guarded(lambda: p.parse(s))
         if st_ == 'timeout':
@@ -287,7 +341,7 @@ def judge_string(ver, s, ctxkind, api, rec=None, source='?', extra_vars=None):
 def judge_batch(case, rec=None, source='?'):
     out = []
     for it in case['items']:
-        out += judge_string(case['ver'], it['s'], it['ctx'], it['api'], rec, source, it.get('vars'))
+        out += judge_string(case['ver'], it['s'], it['ctx'], it['api'], rec, source, it.get('vars'), it.get('cfg', 'default'))
     return out
 
 
@@ -305,7 +359,7 @@ def _vrepr(v, depth=0):
         return f'{tn}@{v.position}'
     if hasattr(v, 'nargs'):
         try:
-            return f'{tn}:{v.symbol}:{len(v._items)}:{v.source}'
+            return re.sub(r' at 0x[0-9a-f]+', '', f'{tn}:{v.symbol}:{len(v._items)}:{v.source}')
         except Exception:
             return f'{tn}:{getattr(v, "symbol", "?")}'
     if hasattr(v, 'symbol'):
@@ -459,7 +513,17 @@ def judge_reuse(case, rec=None, tag='reuse'):
 # --------------------------------------------------------------------------
 # strategies
 # --------------------------------------------------------------------------
-EXHAUSTIVE_NOTE = ('sub-checks reusegrid (every source prefix that ends right after a construct holding temporary parser state - arrow '
+EXHAUSTIVE_NOTE = ('further complete grids: itemgrid (every kind of function item - inline with empty / literal / focus / closure / typed '
+                   'body, named references, partial applications of each, maps, arrays: 33 items in 3.0, 49 in 3.1 - x 25-45 ways of '
+                   'calling it: direct, parenthesised, let-bound, !, partial then call, partial of partial, apply, for-each/filter/'
+                   'fold/sort/array:*/map:*, arrow, lookup, wrong arity: 4128 cases), cfggrid (type operators with unprefixed and '
+                   'prefixed type names, constructor calls, unprefixed names, variables, comparisons: ~1000 strings x 8 parser '
+                   'configurations - XSD as default namespace by option and by empty prefix, function_namespace, compatibility_mode, '
+                   'strict=False + xsd_version 1.1, variable_types, element default namespace - x 4 versions: 24 608 cases) and blowup '
+                   '(18 repeated-unit input families x n = 5, 10, 20, 40 x 4 versions parsed in child interpreters under a CPU budget of '
+                   'max(5 s, 1000 x the n=10 cost) enforced by RLIMIT_CPU; exceeding it is C03/blowup/<unit>/<version>, a budget hit '
+                   'before the base cost is known is only a note). '
+                   'sub-checks reusegrid (every source prefix that ends right after a construct holding temporary parser state - arrow '
                    'with every proxy-resolved name, comments, lookup, map/array constructors, sequence types, calls, paths, flow '
                    'expressions: 32/68/87/284 prefixes per version - x 26 tokenizer-level failures, each followed by 3 ordinary '
                    'expressions on the same parser, compared with a fresh parser on tree, source and value: 12 246 histories), '
@@ -764,6 +828,265 @@ def regex_grid(ver, dynamic):
             yield from with_flags(fn, [inp, pat])
 
 
+# ---- item grid: every kind of function item x every way of calling it (3.0 / 3.1) ------------------------------------
+def function_items(ver):
+    """[(expression, arity)] ; arity None for maps/arrays"""
+    items = [("function($a, $b) { 1 }", 2), ("function($a) { 'x' }", 1), ("function() { 1 }", 0), ("function($a) { . }", 1),
+             ("function($a) { position() }", 1), ("function($a) { a }", 1), ("function($a, $b) { $a + $b }", 2),
+             ("function($a, $b) { ($a, $b) }", 2), ("function($a as xs:integer) as xs:integer { $a }", 1),
+             ("(let $k := 2 return function($a, $b) { $a + $k })", 2), ("(for $k in 3 return function($a) { $k })", 1),
+             ("function($f) { $f(1) }", 1), ("abs#1", 1), ("concat#2", 2), ("concat#3", 3), ("math:pow#2", 2), ("fn:string-join#2", 2),
+             ("count#1", 1), ("true#0", 0), ("position#0", 0), ("xs:integer#1", 1), ("string#0", 0), ("name#1", 1),
+             ("concat(?, 'x')", 1), ("concat('x', ?)", 1), ("concat(?, ?)", 2), ("substring(?, 2)", 1), ("math:pow(2, ?)", 1),
+             ("function($a, $b) { $a + $b }(?, 2)", 1), ("function($a, $b) { $a + $b }(1, ?)", 1),
+             ("function($a, $b) { ($a, $b) }(?, ?)", 2), ("function($a, $b) { . }(?, 2)", 1), ("abs(?)", 1)]
+    if ver >= '3.1':
+        items += [("function($a, $b) {}", 2), ("function($a) {}", 1), ("function() {}", 0), ("function($a, $b) {}(1, ?)", 1),
+                  ("function($a, $b) {}(?, ?)", 2), ("function($a, $b) {}(?, 2)", 1), ("map{1: 2, 'a': 'b'}", None), ("map{}", None),
+                  ("[1, 2]", None), ("[]", None), ("array{1, 2}", None), ("array:size#1", 1), ("map:size#1", 1),
+                  ("map:merge#1", 1), ("array:join(?)", 1), ("map:put(?, 1, ?)", 2)]
+    return items
+
+
+def item_grid(ver):
+    args = ["1", "2", "'x'"]
+    for f, n in function_items(ver):
+        ar = 1 if n is None else n
+        a = args[:ar]
+        al = ', '.join(a)
+        yield f'{f}'
+        yield f'{f}({al})'
+        yield f'({f})({al})'
+        yield f'let $g := {f} return $g({al})'
+        yield f'let $g := {f} return ($g, $g) ! .({al})'
+        yield f'{f}()'
+        yield f'{f}(1, 2, 3, 4)'
+        yield f'function-arity({f})'
+        yield f'function-name({f})'
+        yield f'{f} instance of function(*)'
+        yield f'(1, 2) ! {f}({", ".join(["."] + a[1:]) if ar else ""})'
+        yield f'string({f})'
+        yield f'data({f})'
+        yield f'deep-equal({f}, {f})'
+        yield f'({f}, {f})[2]({al})'
+        if ar >= 1:
+            q1 = ', '.join(['?'] + a[1:])
+            yield f'{f}({q1})'
+            yield f'{f}({q1})({a[0]})'
+            yield f'({f})({q1})({a[0]})'
+            yield f'let $g := {f}({q1}) return $g({a[0]})'
+            yield f'{f}({", ".join(["?"] * ar)})({al})'
+            yield f'{f}({q1})(?)({a[0]})'
+            yield f'for-each((1, 2), {f}({q1}))'
+        if ar >= 2:
+            q2 = ', '.join(a[:1] + ['?'] + a[2:])
+            yield f'{f}({q2})({a[1]})'
+            yield f'{f}({", ".join(["?"] * ar)})({q2})({a[1]})'
+            yield f'{f}({", ".join(["?"] * ar)})({", ".join(["?"] + a[1:])})({a[0]})'
+        if ar == 1:
+            yield f'for-each((1, 2), {f})'
+            yield f'filter((1, 2), {f})'
+            yield f'for-each((), {f})'
+        if ar == 2:
+            yield f'fold-left((1, 2), 0, {f})'
+            yield f'fold-right((1, 2), 0, {f})'
+            yield f'for-each-pair((1, 2), (3, 4), {f})'
+        if ver >= '3.1':
+            yield f'apply({f}, [{al}])'
+            yield f'apply({f}, [])'
+            yield f'let $g := {f} return {a[0] if a else "()"} => $g({", ".join(a[1:])})'
+            yield f'{a[0] if a else "()"} => ({f})({", ".join(a[1:])})'
+            yield f'{f}?1'
+            yield f'{f}?*'
+            if ar == 1:
+                yield f'sort((2, 1), (), {f})'
+                yield f'array:for-each([1, 2], {f})'
+                yield f'array:filter([1, 2], {f})'
+                yield f"map:for-each(map{{1: 2}}, function($k, $v) {{ {f}($v) }})"
+            if ar == 2:
+                yield f'array:fold-left([1, 2], 0, {f})'
+                yield f'map:for-each(map{{1: 2}}, {f})'
+                yield f'array:for-each-pair([1], [2], {f})'
+
+
+# ---- configuration grid: type operators, constructors, names and variables under non-default parser options ----------
+CFG_OPERANDS = ["1", "'1'", "'x'", "1.5", "()", "(1, 2)", "a", "@a", ".", "$v", "xs:untypedAtomic('1')", "true()"]
+CFG_TYPES = ['integer', 'date', 'string', 'QName', 'untypedAtomic', 'anyAtomicType', 'NOTATION', 'decimal', 'boolean', 'nope', 'xs:integer',
+             'xs:nope', 'p:t', 'zz:t', 'integer?', 'xs:date?', 'error', 'anyURI']
+CFG_SEQTYPES = ['integer', 'integer*', 'xs:integer+', 'item()', 'node()*', 'element()', 'element(a)', 'element(a, integer)',
+                'element(*, xs:integer)', 'attribute(a)', 'attribute(*, integer)', 'document-node()', 'empty-sequence()', 'nope', 'p:t?',
+                'text()', 'anyAtomicType+']
+
+
+def cfg_grid(ver):
+    if ver == '1.0':
+        for a in ["1", "'x'", "a", "@a", ".", "$v", "p:a", "*", "integer", "a/b", "//a[b]", "count(a)", "string(integer)", "name(.)",
+                  "a | b", "-a", "a = 'x'", "a[1]", "id('x')/a", "{urn:p}a", "{}a", "child::a", "namespace::*"]:
+            yield a
+        return
+    for a in CFG_OPERANDS:
+        for t in CFG_TYPES:
+            yield f'{a} cast as {t}'
+            yield f'{a} castable as {t}'
+        for t in CFG_SEQTYPES:
+            yield f'{a} instance of {t}'
+            yield f'{a} treat as {t}'
+    for t in ['integer', 'date', 'string', 'QName', 'decimal', 'boolean', 'xs:integer', 'nope', 'untypedAtomic', 'dayTimeDuration', 'NOTATION',
+              'anyURI', 'fn:integer', 'p:integer']:
+        for a in ["'1'", "1", "'2001-01-01'", "'x'", "()", "a", "$v", "."]:
+            yield f'{t}({a})'
+    for s_ in ["a", "a/b", "//a", "*", "p:a", "@a", "@p:b", "child::a", "element(a)", "a[1]", "//element(a)", "self::r", "$v", "$w", "$s",
+               "$v + 1", "$s[1]", "$nope", "count(a)", "fn:count(a)", "string(a)", "abs(-1)", "fn:abs(-1)", "xs:integer(1) + 1", "name(.)",
+               "local-name(a)", "namespace-uri(a)", "a = 'x'", "a eq 'x'", "a < 1", "1 = '1'", "() = 1", "a is b", "a | b", "-a", "+'1'",
+               "1 + '1'", "'a' < 1", "for $x in a return $x", "some $x in a satisfies $x = 1", "if (a) then 1 else 2",
+               "(1, 'a') = 1", "a/text()", "//comment()", "string-length()", "number()", "position() = 1", "lang('en')", "id('x')",
+               "a/b = (1, 2)", "a castable as integer", "element(a, integer)", "schema-element(a)", "1 idiv 0", "1 div 0", "'a' || 1"]:
+        yield s_
+    if ver >= '3.0':
+        for s_ in ["integer#1", "xs:integer#1", "integer#1('1')", "function($x as integer) as integer { $x }(1)", "Q{}a", "Q{urn:p}e",
+                   "Q{http://www.w3.org/2001/XMLSchema}integer('1')", "let $x := 1 return $x cast as integer", "abs#1(1)",
+                   "1 instance of function(*)", "math:pi()"]:
+            yield s_
+    if ver >= '3.1':
+        for s_ in ["1 => integer()", "'1' => xs:integer()", "map{'a': 1} instance of map(string, integer)", "[1] instance of array(integer)",
+                   "map{'a': 1}?a cast as string", "1 => abs()", "[1, 2]?1 treat as integer"]:
+            yield s_
+
+
+# ---- blow-up check: repeated small units, cost measured in child processes --------------------------------------------
+BLOWUP_UNITS = {
+    'comments-after-name': lambda n: 'a' + ' (: c :)' * n + ' + 1',
+    'comments-after-function-name': lambda n: 'count' + ' (: c :)' * n + ' (a)',
+    'comments-between-operands': lambda n: '1' + ' + (: c :) 1' * n,
+    'nested-comments': lambda n: '(:' * n + ' c ' + ':)' * n + ' 1',
+    'nested-parentheses': lambda n: '(' * n + '1' + ')' * n,
+    'chained-plus': lambda n: '1' + ' + 1' * (5 * n),
+    'chained-path': lambda n: 'a' + '/a' * (5 * n),
+    'chained-and-or': lambda n: 'a' + ' and a or a' * (2 * n),
+    'predicates': lambda n: 'a' + '[1]' * n,
+    'nested-predicates': lambda n: 'a[' * n + '1' + ']' * n,
+    'whitespace-run': lambda n: '1' + ' \n\t' * (40 * n) + '+ 1',
+    'string-doubled-quotes': lambda n: "'" + "a''" * (12 * n) + "'",
+    'comma-ranges': lambda n: '(' + ', '.join(['1 to 2'] * n) + ')',
+    'unary-minus': lambda n: '-' * n + '1',
+    'nested-calls': lambda n: 'string(' * n + "'a'" + ')' * n,
+    'long-name': lambda n: 'a.b-c_d' * (10 * n),
+    'names-then-paren': lambda n: ' '.join(['a-b.c div'] * n) + ' count(a)',
+    'union-steps': lambda n: ' | '.join(['a/b[1]'] * n),
+}
+BLOWUP_UNITS_20 = ('comments-after-name', 'comments-after-function-name', 'comments-between-operands', 'nested-comments', 'comma-ranges')
+BLOWUP_SCALE = (5, 10, 20, 40)
+_BLOWUP_CHILD = r'''
+import sys, json, time, resource
+repo = sys.argv[1]
+sys.path.insert(0, repo)
+from elementpath import XPath1Parser, XPath2Parser
+from elementpath.xpath30 import XPath30Parser
+from elementpath.xpath31 import XPath31Parser
+from elementpath.exceptions import ElementPathError
+CLS = {'1.0': XPath1Parser, '2.0': XPath2Parser, '3.0': XPath30Parser, '3.1': XPath31Parser}
+tasks = json.load(sys.stdin)
+def cost(ver, s, reps):
+    best = None; out = 'ok'
+    for _ in range(reps):
+        p = CLS[ver]()
+        t0 = time.process_time()
+        try:
+            p.parse(s)
+        except ElementPathError as e:
+            out = 'error ' + str(e.code)
+        except RecursionError:
+            out = 'recursion'
+        except Exception as e:
+            out = 'exc ' + type(e).__name__
+        dt = time.process_time() - t0
+        best = dt if best is None else min(best, dt)
+    return best, out
+for unit, ver, strings in tasks:
+    base = None
+    for n, s in strings:
+        budget = 5.0 if base is None else max(5.0, 1000.0 * base)
+        soft = int(time.process_time() + budget) + 2
+        resource.setrlimit(resource.RLIMIT_CPU, (soft, soft + 5))
+        print(json.dumps({'unit': unit, 'ver': ver, 'n': n, 'start': True, 'budget': budget}), flush=True)
+        c, out = cost(ver, s, 3 if n <= 10 else 1)
+        if n == 10:
+            base = max(c, 0.001)
+        print(json.dumps({'unit': unit, 'ver': ver, 'n': n, 'cpu': c, 'outcome': out}), flush=True)
+'''
+
+
+def blowup_tasks(ver):
+    out = []
+    for unit, fn in BLOWUP_UNITS.items():
+        if ver == '1.0' and unit in BLOWUP_UNITS_20:
+            continue
+        out.append({'unit': unit, 'ver': ver})
+    return out
+
+
+def judge_blowup(case, rec=None, repo=None):
+    """cases: {'ver', 'units': [...]}: one child interpreter per case; a unit whose n=40 (or n=20) parse exceeds 1000 x the CPU
+    cost of its n=10 parse (at least 5 s of CPU) is a blow-up; the child is killed by RLIMIT_CPU, never by the wall clock"""
+    import json as _json
+    import subprocess
+    if repo is None:
+        import elementpath
+        repo = os.path.dirname(os.path.dirname(os.path.abspath(elementpath.__file__)))
+    ver = case['ver']
+    pending = list(case['units'])
+    discs = []
+    env = {'PYTHONHASHSEED': '0', 'PYTHONDONTWRITEBYTECODE': '1', 'PATH': os.environ.get('PATH', '/usr/bin:/bin'), 'LC_ALL': 'C'}
+    while pending:
+        tasks = [[u, ver, [[n, BLOWUP_UNITS[u](n)] for n in BLOWUP_SCALE]] for u in pending]
+        try:
+            p = subprocess.run([sys.executable, '-c', _BLOWUP_CHILD, repo], input=_json.dumps(tasks), capture_output=True, text=True,
+                               env=env, timeout=1500)
+            stdout, rc = p.stdout, p.returncode
+        except subprocess.TimeoutExpired as e:
+            stdout, rc = (e.stdout or b'').decode() if isinstance(e.stdout, bytes) else (e.stdout or ''), 'wall-timeout'
+        rows = [_json.loads(line) for line in stdout.splitlines() if line.startswith('{')]
+        done = {}
+        started = None
+        for r in rows:
+            if r.get('start'):
+                started = r
+            else:
+                done.setdefault(r['unit'], {})[r['n']] = r
+                started = None
+        finished_units = [u for u in pending if len(done.get(u, {})) == len(BLOWUP_SCALE)]
+        for u in finished_units:
+            c10, c40 = done[u][10]['cpu'], done[u][40]['cpu']
+            if c40 > 1000.0 * max(c10, 0.001) and c40 > 5.0:
+                discs.append(Disc(f'C03/blowup/{u}/{ver}', f'polynomial cost (n=10: {c10:.4f} s CPU)', f'n=40: {c40:.2f} s CPU',
+                                  repr(BLOWUP_UNITS[u](10))))
+            if rec is not None:
+                rec.case(['blowup', u, ver], nontrivial=True, classes=['blowup:unit', f'blowup:ver-{ver}', 'blowup:' + done[u][40]['outcome'].split()[0]],
+                         sample={'check': 'blowup', 'unit': u, 'ver': ver, 'cpu': {str(n): round(done[u][n]['cpu'], 5) for n in BLOWUP_SCALE}})
+        if rc == 0 and len(finished_units) == len(pending):
+            break
+        if started is not None and rc != 'wall-timeout':
+            # the child was stopped by its CPU limit inside this measurement
+            u, n = started['unit'], started['n']
+            c10 = done.get(u, {}).get(10, {}).get('cpu')
+            if n in (20, 40) and c10 is not None:
+                discs.append(Disc(f'C03/blowup/{u}/{ver}', f'polynomial cost (n=10: {c10:.4f} s CPU)',
+                                  f'n={n}: CPU budget of {started["budget"]:.1f} s exceeded', repr(BLOWUP_UNITS[u](10))))
+                if rec is not None:
+                    rec.case(['blowup', u, ver], nontrivial=True, classes=['blowup:unit', f'blowup:ver-{ver}', 'blowup:killed'],
+                             sample={'check': 'blowup', 'unit': u, 'ver': ver, 'killed_at_n': n})
+            elif rec is not None:
+                rec.cls('blowup:inconclusive')
+                rec.notes.append(f'blowup {u} {ver}: CPU budget hit at n={n} before a base cost was known: inconclusive')
+            pending = pending[pending.index(u) + 1:]
+        else:
+            if rec is not None:
+                rec.cls('blowup:inconclusive')
+                rec.notes.append(f'blowup child for {ver} ended with {rc}: {len(pending) - len(finished_units)} units inconclusive')
+            break
+    return discs
+
+
 def _item(strings, source):
     return st.fixed_dictionaries({'s': strings, 'ctx': st.sampled_from(CTX_KINDS + ('root', 'root', 'doc')),
                                   'api': st.sampled_from(APIS + ('evaluate', 'select'))})
@@ -827,6 +1150,8 @@ def _strategy(job):
 def _judge_for(chk):
     if chk in ('reuse', 'reusegrid'):
         return judge_reuse
+    if chk == 'blowup':
+        return judge_blowup
     return lambda case, rec=None: judge_batch(case, rec, chk)
 
 
@@ -871,6 +1196,11 @@ def jobs(tier, seed):
     for v, k in (('3.0', 1), ('3.1', 2)):
         for i in range(k):
             out.append({'check': 'nsgrid', 'ver': v, 'part': i, 'parts': k})
+    for v in ('3.0', '3.1'):
+        out.append({'check': 'itemgrid', 'ver': v, 'part': 0, 'parts': 1})
+    for v in VERS:
+        out.append({'check': 'cfggrid', 'ver': v, 'part': 0, 'parts': 1})
+        out.append({'check': 'blowup', 'ver': v, 'units': [t['unit'] for t in blowup_tasks(v)]})
     for v, dyn, k in (('2.0', False, 1), ('3.1', False, 1), ('3.0', True, 1)):
         for i in range(k):
             out.append({'check': 'regexgrid', 'ver': v, 'dynamic': dyn, 'part': i, 'parts': k})
@@ -897,9 +1227,13 @@ def run_job(job, rec: Recorder):
     if chk == 'atheris':
         from vp.gen import c03_atheris
         return c03_atheris.run(job, rec)
-    if chk in ('callgrid', 'opgrid', 'nsgrid', 'regexgrid'):
+    if chk in ('callgrid', 'opgrid', 'nsgrid', 'regexgrid', 'itemgrid', 'cfggrid'):
         for case in _grid_cases(job):
             rec.discs_of(chk, case, judge_batch(case, rec, chk))
+        return
+    if chk == 'blowup':
+        case = {'ver': job['ver'], 'units': job['units']}
+        rec.discs_of('blowup', case, judge_blowup(case, rec))
         return
     if chk == 'reusegrid':
         for case in _grid_cases(job):
@@ -924,6 +1258,18 @@ def _grid_cases(job):
                     it['vars'] = vars_
                 yield {'ver': ver, 'items': [it]}
         return
+    if chk == 'cfggrid':
+        for cfg in PARSER_CONFIGS:
+            for s in cfg_grid(ver):
+                yield {'ver': ver, 'items': [{'s': s, 'ctx': 'root', 'api': 'evaluate', 'cfg': cfg}]}
+        return
+    if chk == 'itemgrid':
+        for idx, s in enumerate(item_grid(ver)):
+            ctx, api = (('root', 'evaluate'), ('none', 'evaluate'), ('root', 'select'))[idx % 3]
+            yield {'ver': ver, 'items': [{'s': s, 'ctx': 'root', 'api': 'evaluate'}]}
+            if (ctx, api) != ('root', 'evaluate'):
+                yield {'ver': ver, 'items': [{'s': s, 'ctx': ctx, 'api': api}]}
+        return
     grid = {'callgrid': call_grid, 'opgrid': op_grid, 'nsgrid': ns_grid}[chk]
     for idx, s in enumerate(grid(ver)):
         if idx % job['parts'] == job['part']:
@@ -940,7 +1286,14 @@ def shrink_job(job, bucket, budget):
                 if d.bucket == bucket:
                     return case, d
         return None
-    if chk in ('callgrid', 'opgrid', 'nsgrid', 'regexgrid'):
+    if chk == 'blowup':
+        for u in job['units']:
+            case = {'ver': job['ver'], 'units': [u]}
+            for d in judge_blowup(case):
+                if d.bucket == bucket:
+                    return case, d
+        return None
+    if chk in ('callgrid', 'opgrid', 'nsgrid', 'regexgrid', 'itemgrid', 'cfggrid'):
         for case in _grid_cases(job):
             for d in judge_batch(case, None, chk):
                 if d.bucket == bucket:
